@@ -1,3 +1,4 @@
+import EdpVerif.Generated.MiscC11
 import EdpVerif.Lemmas.CmpSwap
 import EdpVerif.Impl.Den
 import EdpVerif.Spec.ErlOrder
